@@ -564,6 +564,46 @@ fn run_gate(a: &Args) -> Report {
             }
         }
     }
+    // three-party schedules: a snapshot reader that has passed its quiescence wait is held while pusher A claims the next
+    // slot and stalls and pusher B claims the one after and completes (a hole in the completion bitmap); the reader then
+    // builds its slice. Also with a clear or an is_empty poll in the reader's place.
+    for round in 0..rounds.max(2) {
+        for &prefill in PREFILLS {
+            for rk in [1u8, 2, 3] {
+                combos += 1;
+                if combos % a.shards != a.shard {
+                    continue;
+                }
+                let (win_point, spin): (&str, &str) = match rk {
+                    1 => ("bucket.data.after_quiesce", "bucket.data.spin"),
+                    2 => ("bucket.clear.after_detach", "bucket.clear.spin"),
+                    _ => ("@start", "@done"),
+                };
+                let roles = vec![(rk, gen_program(&mut r, rk, 1)), (0u8, gen_program(&mut r, 0, 1)), (0u8, gen_program(&mut r, 0, 1 + (round % 2) as usize))];
+                let mut rules = Vec::new();
+                if rk == 1 {
+                    rules.push(Rule::new(1, "@start", 1, 0, win_point, 1));
+                    rules.push(Rule::new(0, win_point, 1, 2, "@done", 1));
+                    rules.push(Rule::new(1, "bucket.block_push.after_claim", 1, 0, "@done", 1));
+                    rules.push(Rule::new(2, "@start", 1, 1, "bucket.block_push.after_claim", 1));
+                } else {
+                    // A claims and stalls; B completes behind it; then the clear / poll runs (a clear must wait for A:
+                    // A is released when the clear spins on its block or finishes)
+                    rules.push(Rule::new(1, "bucket.block_push.after_claim", 1, 0, spin, 1));
+                    rules.push(Rule::new(2, "@start", 1, 1, "bucket.block_push.after_claim", 1));
+                    rules.push(Rule::new(0, "@start", 1, 2, "@done", 1));
+                }
+                let sched = jo! {"three_party" => true, "reader_kind" => rk as u64, "prefill" => prefill, "what" => "pusher A claimed a slot and stalled, pusher B completed the next slot, reader/clear/poll in between"};
+                let ex = execute(&mut r, prefill, roles, Policy::Gate(rules), true, true);
+                if ex.unsat > 0 {
+                    rep.count("gate:unsatisfiable-schedule(ran-ungated)", 1);
+                } else if ex.expired == 0 {
+                    rep.count(&format!("gate-hit:hole-in-completion-bitmap:reader{}", rk), 1);
+                }
+                report_exec(&mut rep, &ex, &mut sigset, &mut win, "gate", sched);
+            }
+        }
+    }
     rep.count("interleaving_signatures", sigset.len() as u64);
     for (k, v) in win {
         rep.count(&k, v);
